@@ -36,7 +36,27 @@ type c17tOp struct {
 	DelayMs int `json:"delay"`
 }
 
-var c17tKinds = []string{"Handshake", "Read", "ReadMsg", "Write", "WriteMsg", "SetDeadline", "SetReadDeadline", "Close", "AcceptTimeout"}
+var c17tKinds = []string{"Handshake", "Read", "ReadMsg", "Write", "WriteMsg", "SetDeadline", "SetReadDeadline", "Close", "AcceptTimeout", "WriteMsgBurst", "Roam"}
+
+// Kind 9, WriteMsgBurst (Client, Handle): Arg consecutive WriteMsg calls of a few bytes - an application that keeps writing.
+// Kind 10, Roam: the endpoint moves. Client: the client's socket is rebound to a new address (simnet Rebind) and the client
+// writes a message from there, so the SERVER's receive loop takes up the new address; Handle: the server's socket moves and
+// the handle writes a message, so the CLIENT's receive loop takes up the new address. 1 + Arg%8 moves, (Arg/8)%3 selects the
+// pause before each (c17tRoamGaps).
+const (
+	c17tBurst = 9
+	c17tRoam  = 10
+)
+
+var c17tRoamGaps = []time.Duration{37 * time.Microsecond, 1300 * time.Microsecond, 17 * time.Millisecond}
+
+// c17tRead is one call of the reader in the drain sub-scenario.
+type c17tRead struct {
+	Msg bool `json:"msg,omitempty"` // ReadMsg instead of Read
+	Buf int  `json:"buf"`           // length of the caller's buffer (>= 1)
+}
+
+type c17tSpan struct{ from, to time.Duration }
 
 type c17tYield struct {
 	Point int `json:"p"`
@@ -54,6 +74,15 @@ type c17tCase struct {
 	Yields      []c17tYield `json:"yields"`
 	Drain       int         `json:"drain"` // >0: drain sub-scenario with this many messages (1: on the client, 2: on the handle: Drain/10 messages)
 	CloseFail   int         `json:"closeFail"` // fault: Close of the underlying socket reports an error (bit 0: the server's socket, bit 1: the client's socket); the socket is closed all the same
+	// slow sockets: every session datagram the client / the server-side handle writes stays this long (virtual microseconds)
+	// inside the socket before it is on the wire (a full send buffer; simnet write gate). 0: writes never wait.
+	SlowCliUs int `json:"slowCli,omitempty"`
+	SlowSrvUs int `json:"slowSrv,omitempty"`
+	// drain sub-scenario with short read buffers: lengths of the queued messages (none: the fixed series of Drain), the
+	// reader's calls, and how many of them are made BEFORE Close (the rest, and then calls with a large buffer, after it)
+	Msgs    []int      `json:"msgs,omitempty"`
+	Reads   []c17tRead `json:"reads,omitempty"`
+	CloseAt int        `json:"closeAt,omitempty"`
 }
 
 // c17tCloseErr is what a failing close of the underlying socket reports (CloseFail).
@@ -99,7 +128,7 @@ func c17tScenario(c c17tCase, v *vlib.Verdict) {
 	}
 	// network behaviour of the peer
 	env.Net.Filter = func(d simnet.Datagram) []simnet.Datagram {
-		toClient := simnetEq(d.Dst, vCliAddr)
+		toClient := d.Dst != nil && !d.Dst.IP.Equal(vSrvAddr.IP) // the client roams (never to the server's IP), the server moves between ports of its IP
 		switch c.Peer {
 		case 1:
 			if toClient {
@@ -123,6 +152,48 @@ func c17tScenario(c c17tCase, v *vlib.Verdict) {
 	}
 	if c.CloseFail&2 != 0 {
 		cliSock.FailClose(c17tCloseErr)
+	}
+	// slow sockets (index 0: the client's, 1: the server's). The write waits inside WriteMsgUDP, i.e. inside Handle.send with
+	// the handle's write mutex held and the session lock released. The log of those intervals has a mutex of its own that only
+	// writers of that socket take: no synchronisation is added between a writer and the goroutines that make the peer roam.
+	slow := [2]time.Duration{time.Duration(c.SlowCliUs) * time.Microsecond, time.Duration(c.SlowSrvUs) * time.Microsecond}
+	socks := [2]*simnet.Sock{cliSock, env.SrvSock}
+	var wlogMu, roamMu [2]sync.Mutex
+	var wlog [2][]c17tSpan      // [x]: intervals during which a session datagram written by endpoint x was inside the socket
+	var roams [2][]time.Duration // [x]: moments at which the PEER of endpoint x put a message on the wire from a new address
+	var roamSeq [2]int
+	for x := range socks {
+		if slow[x] <= 0 {
+			continue
+		}
+		x, d := x, slow[x]
+		socks[x].SetWriteGate(func(b []byte, _ *net.UDPAddr, closed <-chan struct{}) {
+			if len(b) == 0 || (MessageType(b[0]) != MessageTypeTransport && MessageType(b[0]) != MessageTypeControl) {
+				return // handshake traffic is not delayed (the server's read loop writes it)
+			}
+			t0 := time.Since(start)
+			tm := time.NewTimer(d)
+			select {
+			case <-closed:
+			case <-tm.C:
+			}
+			tm.Stop()
+			t1 := time.Since(start)
+			wlogMu[x].Lock()
+			wlog[x] = append(wlog[x], c17tSpan{t0, t1})
+			wlogMu[x].Unlock()
+		})
+	}
+	// A write that waits in a slow socket holds the handle's write mutex; a second writer of the same endpoint would wait for
+	// that MUTEX, which is not a durable wait: the bubble's clock - and with it the first write - would stand still. With a
+	// slow socket the writers of one endpoint therefore take turns on a channel semaphore (as the readers do below).
+	writeSem := [2]chan struct{}{make(chan struct{}, 1), make(chan struct{}, 1)}
+	lockW := func(obj int) func() {
+		if obj > 1 || slow[obj] <= 0 {
+			return func() {}
+		}
+		writeSem[obj] <- struct{}{}
+		return func() { <-writeSem[obj] }
 	}
 	// the handle becomes available when the server accepts
 	handleCh := make(chan *Handle, 1)
@@ -229,6 +300,9 @@ func c17tScenario(c c17tCase, v *vlib.Verdict) {
 			}
 		case op.Kind == 1:
 			readSem[op.Obj] <- struct{}{}
+			if op.Arg >= 1 && op.Arg <= 100 {
+				buf = buf[:op.Arg] // a stream reader with a buffer shorter than most messages: the rest stays in the handle
+			}
 			ev.N, ev.Err = conn.Read(buf)
 			<-readSem[op.Obj]
 		case op.Kind == 2:
@@ -236,9 +310,46 @@ func c17tScenario(c c17tCase, v *vlib.Verdict) {
 			ev.N, ev.Err = conn.ReadMsg(buf)
 			<-readSem[op.Obj]
 		case op.Kind == 3:
+			unlock := lockW(op.Obj)
 			ev.N, ev.Err = conn.Write(vlib.Fill(uint64(pi*100+oi), 1+op.Arg))
+			unlock()
 		case op.Kind == 4:
+			unlock := lockW(op.Obj)
 			ev.Err = conn.WriteMsg(vlib.Fill(uint64(pi*100+oi), 1+op.Arg%60000))
+			unlock()
+		case op.Kind == c17tBurst:
+			for i := 0; i < op.Arg && ev.Err == nil; i++ {
+				unlock := lockW(op.Obj)
+				ev.Err = conn.WriteMsg(vlib.Fill(uint64(pi*100+oi), 1+i%5))
+				unlock()
+				if ev.Err == nil {
+					ev.N++
+				}
+			}
+		case op.Kind == c17tRoam:
+			// the endpoint moves 1..8 times; each time it writes a message from its new address, which makes the PEER's
+			// receive loop take up that address - concurrently with whatever the peer's application is writing
+			for i := 0; i < 1+op.Arg%8 && ev.Err == nil && !finishing.Load(); i++ {
+				time.Sleep(c17tRoamGaps[(op.Arg/8)%len(c17tRoamGaps)])
+				roamMu[op.Obj].Lock()
+				roamSeq[op.Obj]++
+				k := roamSeq[op.Obj]
+				roamMu[op.Obj].Unlock()
+				to := simnet.Addr(fmt.Sprintf("10.0.%d.2", 1+k%200), 40000+k)
+				if op.Obj == 1 {
+					to = &net.UDPAddr{IP: vSrvAddr.IP, Port: vSrvAddr.Port + k}
+				}
+				socks[op.Obj].Rebind(to)
+				unlock := lockW(op.Obj)
+				ev.Err = conn.WriteMsg(vlib.Fill(uint64(pi*100+oi), 1+i%3))
+				unlock()
+				if ev.Err == nil {
+					ev.N++
+					roamMu[op.Obj].Lock()
+					roams[1-op.Obj] = append(roams[1-op.Obj], time.Since(start))
+					roamMu[op.Obj].Unlock()
+				}
+			}
 		case op.Kind == 5:
 			ev.Err = conn.SetDeadline(c17tDeadline(op.Arg))
 		case op.Kind == 6:
@@ -382,11 +493,35 @@ func c17tScenario(c c17tCase, v *vlib.Verdict) {
 			v.Label("socket-close-fails+close-in-program")
 		}
 	}
+	// how often did the peer's move arrive while a local write was inside the socket (past the session lock, before the wire)?
+	for x, name := range []string{"Client", "Handle"} {
+		hit := false
+		roamMu[1-x].Lock()
+		if len(roams[x]) > 0 {
+			v.Label("peer-roams-during-program:" + name)
+		}
+		wlogMu[x].Lock()
+		for _, at := range roams[x] {
+			for _, sp := range wlog[x] {
+				if sp.from < at && at < sp.to {
+					hit = true
+				}
+			}
+		}
+		wlogMu[x].Unlock()
+		roamMu[1-x].Unlock()
+		if hit {
+			v.Label("peer-roams-while-a-write-is-inside-the-socket:" + name)
+		}
+	}
+	if c.SlowCliUs > 0 || c.SlowSrvUs > 0 {
+		v.Label("slow-socket")
+	}
 	// classification
 	racing := 0
 	for _, pr := range c.Procs {
 		for _, op := range pr {
-			if op.Kind >= 5 {
+			if (op.Kind >= 5 && op.Kind <= 8) || op.Kind == c17tRoam {
 				racing++
 				break
 			}
@@ -462,7 +597,6 @@ func c17tDrain(c c17tCase, v *vlib.Verdict) {
 		cli.Close()
 		return
 	}
-	k := 1 + c.Drain/10
 	onClient := c.Drain%2 == 1
 	var from, to MsgConn = h, cli
 	name := "Client"
@@ -470,28 +604,124 @@ func c17tDrain(c c17tCase, v *vlib.Verdict) {
 		from, to = cli, h
 		name = "Handle"
 	}
+	lens := c.Msgs
+	if len(lens) == 0 {
+		for i := 0; i < 1+c.Drain/10; i++ {
+			lens = append(lens, 10+i*37)
+		}
+	}
+	k := len(lens)
 	var want [][]byte
-	for i := 0; i < k; i++ {
-		m := vlib.Fill(uint64(1000+i), 10+i*37)
+	var stream []byte      // what was queued, as a byte stream
+	bounds := map[int]int{} // offset in stream at which message i starts -> i
+	for i, n := range lens {
+		m := vlib.Fill(uint64(1000+i), n)
+		bounds[len(stream)] = i
 		want = append(want, m)
+		stream = append(stream, m...)
 		if err := from.WriteMsg(m); err != nil {
 			v.Failf("C17:sanity:write-fails", "%v", err)
 			return
 		}
 	}
 	synctest.Wait() // everything is delivered into the receive queue
-	to.Close()
-	buf := make([]byte, 70000)
-	for i, m := range want {
-		n, err := to.ReadMsg(buf)
-		if err != nil || string(buf[:n]) != string(m) {
-			v.Failf("C17:transport:queued-data-lost-on-close:"+name, "%d messages were queued before %s.Close; ReadMsg #%d after Close returned (%d bytes, %v) instead of message %d", k, name, i, n, err, i)
-			break
+	// The reader's calls: c.CloseAt of c.Reads before Close (only while something is left to read: such a call cannot
+	// block), the others after it, then calls with a large buffer (ReadMsg if the case has no Reads, else Read) until
+	// end-of-stream. Oracle, from the property ("data queued before close is still returned before end-of-stream", in
+	// order) and the documented contracts (Read is an io.Reader over the messages; ReadMsg returns one message, or
+	// ErrBufOverflow - the message stays buffered - if the caller's buffer is too short): the bytes the calls return, in
+	// order, are exactly the bytes that were queued; end-of-stream comes after all of them, not before; a ReadMsg that
+	// starts at a message boundary returns exactly that message.
+	var got []byte
+	closed, sawEOF, overflowPending := false, false, false
+	doClose := func() {
+		if closed {
+			return
+		}
+		closed = true
+		_, atBound := bounds[len(got)]
+		inMsg := !atBound && len(got) < len(stream) // a Read took only a part of the message
+		var qlen int
+		if onClient {
+			qlen = len(cli.ss.handle.recv.C)
+		} else {
+			qlen = len(h.recv.C)
+		}
+		switch {
+		case (inMsg || overflowPending) && qlen == 0:
+			v.Label("drain:close-with-a-partly-read-message-and-an-empty-queue:" + name)
+		case inMsg || overflowPending:
+			v.Label("drain:close-with-a-partly-read-message:" + name)
+		}
+		to.Close()
+	}
+	maxCalls := len(c.Reads) + k + 8
+	for i := 0; i < maxCalls && v.OK() && !sawEOF; i++ {
+		if i >= c.CloseAt || i >= len(c.Reads) || len(got) == len(stream) {
+			doClose()
+		}
+		rd := c17tRead{Msg: len(c.Reads) == 0 || c.Drain%4 >= 2, Buf: 70000}
+		if i < len(c.Reads) {
+			rd = c.Reads[i]
+		}
+		if rd.Buf < 1 {
+			rd.Buf = 1
+		}
+		call := map[bool]string{false: "Read", true: "ReadMsg"}[rd.Msg]
+		when := map[bool]string{false: "before", true: "after"}[closed]
+		buf := make([]byte, rd.Buf)
+		var n int
+		var err error
+		if rd.Msg {
+			n, err = to.ReadMsg(buf)
+		} else {
+			n, err = to.Read(buf)
+		}
+		rest := len(stream) - len(got)
+		mi, atBound := bounds[len(got)]
+		curRem := 0 // what is left of the message the next byte belongs to
+		for off, j := range bounds {
+			if off <= len(got) && len(got) < off+len(want[j]) {
+				curRem = off + len(want[j]) - len(got)
+			}
+		}
+		switch {
+		case err == io.EOF && closed && n == 0:
+			sawEOF = true
+			if rest > 0 {
+				v.Failf("C17:transport:queued-data-lost-on-close:"+name, "%d messages (%d bytes) were queued before %s.Close; call #%d, %s(%d-byte buffer) after Close, reports end-of-stream although only %d bytes have been returned (%d calls were made before Close)", k, len(stream), name, i, call, rd.Buf, len(got), min(c.CloseAt, len(c.Reads)))
+			}
+		case err == ErrBufOverflow && rd.Msg && n == 0:
+			// the message (or what is left of it) stays buffered; legitimate only if the buffer really is too short
+			if rd.Buf >= curRem {
+				v.Failf("C17:transport:drain:unexpected-overflow:"+name, "call #%d, ReadMsg(%d-byte buffer) %s Close: ErrBufOverflow although only %d bytes of the current message are left", i, rd.Buf, when, curRem)
+			}
+			overflowPending = true
+			v.Label("drain:ReadMsg-overflow-" + when + "-close")
+		case err != nil:
+			v.Failf("C17:transport:drain:unexpected-read-error:"+name, "call #%d, %s(%d-byte buffer) %s Close returned (%d, %v); %d of %d queued bytes have been returned", i, call, rd.Buf, when, n, err, len(got), len(stream))
+		default:
+			if n > rest || string(buf[:n]) != string(stream[len(got):len(got)+min(n, rest)]) {
+				v.Failf("C17:transport:drain:bytes-differ:"+name, "call #%d, %s(%d-byte buffer) %s Close returned %d bytes that are not the next bytes of what was queued (offset %d of %d)", i, call, rd.Buf, when, n, len(got), len(stream))
+				break
+			}
+			if rd.Msg && atBound && n != len(want[mi]) {
+				v.Failf("C17:transport:queued-data-lost-on-close:"+name, "call #%d, ReadMsg %s Close returned %d bytes; the next queued message (%d of %d) has %d", i, when, n, mi, k, len(want[mi]))
+				break
+			}
+			if !rd.Msg && rd.Buf < curRem {
+				v.Label("drain:short-read-buffer-" + when + "-close")
+			}
+			got = append(got, buf[:n]...)
+			overflowPending = false
 		}
 	}
+	if v.OK() && !sawEOF {
+		v.Failf("C17:transport:no-eof-after-drain:"+name, "%d calls after the %d queued messages (%d bytes): %d bytes returned and no end-of-stream", maxCalls, k, len(stream), len(got))
+	}
 	if v.OK() {
-		if n, err := to.ReadMsg(buf); err != io.EOF {
-			v.Failf("C17:transport:no-eof-after-drain:"+name, "after the %d queued messages ReadMsg returned (%d, %v) instead of end-of-stream", k, n, err)
+		if n, err := to.ReadMsg(make([]byte, 70000)); err != io.EOF {
+			v.Failf("C17:transport:no-eof-after-drain:"+name, "after the %d queued messages and a first end-of-stream ReadMsg returned (%d, %v) instead of end-of-stream", k, n, err)
 		}
 	}
 	cli.Close()
@@ -502,6 +732,24 @@ func c17tDrain(c c17tCase, v *vlib.Verdict) {
 
 func c17tRunFn(t *testing.T) func(c c17tCase, v *vlib.Verdict) {
 	return func(c c17tCase, v *vlib.Verdict) {
+		if c.SlowCliUs < 0 || c.SlowSrvUs < 0 || c.SlowCliUs > 1000000 || c.SlowSrvUs > 1000000 || len(c.Msgs) > 16 || len(c.Reads) > 64 || c.CloseAt < 0 {
+			v.Discard = true
+			return
+		}
+		for _, n := range c.Msgs {
+			if n < 1 || n > 60000 {
+				v.Discard = true
+				return
+			}
+		}
+		for _, pr := range c.Procs {
+			for _, op := range pr {
+				if op.Kind < 0 || op.Kind >= len(c17tKinds) || op.Obj < 0 || op.Obj > 2 || (op.Kind == c17tBurst && (op.Arg < 0 || op.Arg > 200)) || (op.Kind == c17tRoam && op.Arg < 0) {
+					v.Discard = true
+					return
+				}
+			}
+		}
 		res := vlib.Bubble(t, 60*time.Second, func() {
 			if c.Drain > 0 {
 				c17tDrain(c, v)
@@ -550,6 +798,31 @@ func c17tGen(t *rapid.T) c17tCase {
 	c := c17tCase{Hidden: rapid.Bool().Draw(t, "hidden")}
 	if rapid.IntRange(0, 9).Draw(t, "drain") == 0 {
 		c.Drain = rapid.IntRange(1, 60).Draw(t, "drainN")
+		if rapid.IntRange(0, 3).Draw(t, "short-buffers") == 0 {
+			return c // the fixed series of messages, read with ReadMsg into a large buffer after Close
+		}
+		// messages of drawn lengths; the reader's buffers are mostly shorter than the messages; Close comes after a drawn
+		// number of calls, i.e. also in the middle of a message, also of the last one
+		k := rapid.SampledFrom([]int{1, 1, 1, 2, 2, 3, 4, 5}).Draw(t, "msgs")
+		for i := 0; i < k; i++ {
+			c.Msgs = append(c.Msgs, rapid.SampledFrom([]int{1, 2, 3, 10, 47, 200, 1000, 5000}).Draw(t, "msglen"))
+		}
+		nr := rapid.IntRange(1, 3*k+2).Draw(t, "nreads")
+		for i := 0; i < nr; i++ {
+			r := c17tRead{Msg: rapid.IntRange(0, 3).Draw(t, "readmsg") == 0}
+			switch rapid.IntRange(0, 3).Draw(t, "bufclass") {
+			case 0:
+				r.Buf = rapid.IntRange(1, 9).Draw(t, "buf")
+			case 1:
+				r.Buf = max(1, c.Msgs[rapid.IntRange(0, k-1).Draw(t, "of")]-rapid.SampledFrom([]int{1, 1, 2, 5}).Draw(t, "less")) // just too short for one of the messages
+			case 2:
+				r.Buf = max(1, c.Msgs[rapid.IntRange(0, k-1).Draw(t, "of")]/2)
+			default:
+				r.Buf = rapid.SampledFrom([]int{46, 199, 999, 70000}).Draw(t, "buf")
+			}
+			c.Reads = append(c.Reads, r)
+		}
+		c.CloseAt = rapid.IntRange(0, nr).Draw(t, "closeAt")
 		return c
 	}
 	c.CloseFail = rapid.SampledFrom([]int{0, 0, 0, 1, 2, 3}).Draw(t, "closeFail")
@@ -561,17 +834,49 @@ func c17tGen(t *rapid.T) c17tCase {
 		o := c17tOp{Obj: rapid.SampledFrom([]int{0, 0, 0, 1, 1, 2}).Draw(t, "obj")}
 		switch o.Obj {
 		case 0:
-			o.Kind = rapid.IntRange(0, 7).Draw(t, "kind")
+			o.Kind = rapid.SampledFrom([]int{0, 1, 2, 3, 4, 5, 6, 7, 0, 1, 2, 3, 4, 5, 6, 7, c17tBurst, c17tRoam}).Draw(t, "kind")
 		case 1:
-			o.Kind = rapid.IntRange(1, 7).Draw(t, "kind")
+			o.Kind = rapid.SampledFrom([]int{1, 2, 3, 4, 5, 6, 7, 1, 2, 3, 4, 5, 6, 7, c17tBurst, c17tRoam}).Draw(t, "kind")
 		default:
 			o.Kind = rapid.SampledFrom([]int{8, 8, 7}).Draw(t, "kind")
 		}
 		o.Arg = rapid.SampledFrom([]int{0, 1, 2, 3, 4, 100, 70000, 200000}).Draw(t, "arg")
 		o.DelayMs = rapid.SampledFrom([]int{0, 0, 0, 1, 20, 400, 2500}).Draw(t, "delay")
+		switch o.Kind {
+		case c17tBurst:
+			o.Arg = rapid.IntRange(3, 40).Draw(t, "writes")
+		case c17tRoam:
+			o.Arg = rapid.IntRange(0, 7).Draw(t, "moves") + 8*rapid.IntRange(0, len(c17tRoamGaps)-1).Draw(t, "gap")
+		}
 		return o
 	})
-	c.Procs = rapid.SliceOfN(rapid.SliceOfN(op, 1, 5), 2, 6).Draw(t, "procs")
+	// One case in three: the peer roams while the application writes, over a slow socket. Side 0: the client roams and the
+	// server-side handle keeps writing (the server's socket is slow); side 1: the server's socket moves and the client keeps
+	// writing (the client's socket is slow); side 2: both. The two (four) goroutines are added to a shorter random program,
+	// which may close, read, set deadlines ... at any time.
+	minProcs, maxProcs := 2, 6
+	var fam [][]c17tOp
+	if rapid.IntRange(0, 2).Draw(t, "roaming-family") == 0 {
+		c.Peer = rapid.SampledFrom([]int{0, 0, 0, 2}).Draw(t, "peer-roaming-family")
+		side := rapid.IntRange(0, 2).Draw(t, "roaming-side")
+		for x := 0; x < 2; x++ {
+			if side != 2 && side != x {
+				continue
+			}
+			us := rapid.SampledFrom([]int{150, 2500, 30000}).Draw(t, "slow")
+			if x == 0 {
+				c.SlowSrvUs = us
+			} else {
+				c.SlowCliUs = us
+			}
+			delay := rapid.SampledFrom([]int{0, 0, 1, 20})
+			fam = append(fam,
+				[]c17tOp{{Obj: 1 - x, Kind: c17tBurst, Arg: rapid.IntRange(5, 40).Draw(t, "writes"), DelayMs: delay.Draw(t, "delay")}},
+				[]c17tOp{{Obj: x, Kind: c17tRoam, Arg: rapid.IntRange(1, 7).Draw(t, "moves") + 8*rapid.IntRange(0, len(c17tRoamGaps)-1).Draw(t, "gap"), DelayMs: delay.Draw(t, "delay")}})
+		}
+		minProcs, maxProcs = 1, 6-len(fam)
+	}
+	c.Procs = append(fam, rapid.SliceOfN(rapid.SliceOfN(op, 1, 5), minProcs, maxProcs).Draw(t, "procs")...)
 	c.Yields = rapid.SliceOfN(rapid.Custom(func(t *rapid.T) c17tYield {
 		return c17tYield{Point: rapid.IntRange(0, len(c17tPoints)-1).Draw(t, "pt"), Hit: rapid.IntRange(0, 3).Draw(t, "hit"), Us: rapid.SampledFrom([]int{0, 1, 500, 50000, 600000}).Draw(t, "us")}
 	}), 0, 5).Draw(t, "yields")
